@@ -7,4 +7,5 @@ def main : IO Unit := runDriver fun
   | "covert" :: args => Covert.handle args
   | "csched" :: args => Covert.handleSched args
   | "creload" :: args => Covert.handleReload args
+  | "cdialback" :: args => Covert.handleDialback args
   | _ => none
